@@ -464,6 +464,12 @@ def gen_op(rng, w, stats):
                 longer = [o for o in opts if som(now + o) > ps[0][0]]
                 if longer:
                     return ["Extend", u, ps[0][0], ps[0][1], rng.choice(longer)]
+            unripe = [(e2, v2) for e2, v2 in hs if e2 > now]
+            if unripe and rng.random() < 0.3:
+                # one call paying expired AND not-yet-expired positions (same token id, different nonces): the time
+                # lock is per payment, the whole call must be refused
+                e3, v3 = rng.choice(unripe)
+                ps.insert(rng.choice([len(ps), len(ps), 0]), [e3, amount_class(rng, v3)])
             return ["Unlock", u, ps]
     if roll < 0.66:
         longer = [o for o in opts if som(now + o) > e]
